@@ -10,9 +10,11 @@ import (
 
 func cfgC06(tier string) e1Cfg {
 	t := baseTxn()
-	t.MergePct = 45
+	t.MergePct, t.SwallowPct, t.PFailInsert = 45, 30, 8
+	// Interlope: in half of the histories other clients commit between the operations of the observed
+	// transaction (e.g. between a failed insert of a transaction that carries on and its rollback)
 	return e1Cfg{Prop: "C06", Kinds: allKinds, LateKinds: []Kind{KInt, KString, KEnum}, KeyedPct: 25, LayoutPct: 50, Steps: steps(tier, 90, 300), Pool: "edge",
-		Replica: true, NIdx: 3, NSorted: 1, PIdxChg: 3, PNewCol: 1, Txn: t, DumpEvery: 2, Oracles: oracleSet("replica"), DensePct: 8}
+		Replica: true, NIdx: 3, NSorted: 1, PIdxChg: 3, PNewCol: 1, Txn: t, DumpEvery: 2, Oracles: oracleSet("replica"), DensePct: 8, Interlope: true}
 }
 
 func cfgC15(tier string) e1Cfg {
@@ -45,8 +47,11 @@ func init() {
 		mp.add(e1PhaseFor(cfgC06, 1600, 24000))
 		mp.add(probePhaseFor("C06"))
 		mp.add(streamPhaseFor("C06", 4, 40))
+		mp.add(countPlan, func(w *W, idx int) {
+			withWatchdog(w, idx, fmt.Sprintf("E3:count:round%d", idx), 5*time.Minute, func() { countRound(w, idx) })
+		})
 		register(&Property{ID: "C06", Level: "exploration",
-			Rule:   "phase 1: every interleaving (exhaustive for the small scenarios named in notes, uniform seeded samples for 'big') of scripted writers at the commit protocol's lock-free yield points; the emitted commits go through the real commit.Channel (cloned) and a real commit.Log file and are replayed in emission order on two replicas; at quiescence dump(primary) == dump(channel replica) == dump(log replica); phase 2: seeded single-writer histories over all column kinds with a stream replica compared after every step; phase 3: directed probe of the recorded finding; distinct = distinct schedule traces / history hashes; every executed schedule commits at least two transactions (non-trivial)",
+			Rule:   "phase 1: every interleaving (exhaustive for the small scenarios named in notes, uniform seeded samples for 'big') of scripted writers at the commit protocol's lock-free yield points; the emitted commits go through the real commit.Channel (cloned) and a real commit.Log file and are replayed in emission order on two replicas; at quiescence dump(primary) == dump(channel replica) == dump(log replica); phase 2: seeded single-writer histories over all column kinds with a stream replica compared after every step; phase 3: directed probes (the recorded finding; a key deleted in one block while another block's row takes it over, forced at commit.betweenColumns); phase 4: parallel stream rounds; phase 5: marker commits of different blocks overlapping (forced from a trigger callback during the column clean-up of a delete, and free-running pairs), Count() of primary and replica against the rows visited; distinct = distinct schedule traces / history hashes; every executed schedule commits at least two transactions (non-trivial)",
 			Assume: concAssume, Plan: mp.Plan, Run: mp.Run, MinEvents: map[string]int64{"schedules_executed": 500, "schedules_with_reordered_commits": 50, "replica_comparisons": 500}})
 	}
 	{
